@@ -19,7 +19,7 @@ func init() {
 		Name:  "PANIC",
 		Doc:   "audit of explicit panics and unchecked assertions; positional packing agreement; StructOf field-name uniqueness",
 		Run:   runPanic,
-		Floor: map[string]int{"PANIC": 8, "PANIC-A": 3, "PACK-P1": 3, "PACK-P3": 5, "STRUCTOF": 5},
+		Floor: map[string]int{"PANIC": 8, "PANIC-A": 3, "PACK-P1": 1, "PACK-P3": 3, "STRUCTOF": 5},
 	})
 }
 
@@ -395,12 +395,28 @@ func runPack(c *Ctx) {
 			src := core.Root(u.elem)
 			fromValues := false
 			var listPath string
-			if ld, ok := u.elem.(*ssa.UnOp); ok {
-				if ia2, ok := ld.X.(*ssa.IndexAddr); ok {
-					if fr, ok := core.AsFieldLoad(ia2.X); ok && fr.Owner == "ValueSet" && fr.Field == "values" {
-						fromValues = true
-						listPath = core.Path(ia2.X)
+			fromList := func(v ssa.Value) (string, bool) {
+				if ld, ok := v.(*ssa.UnOp); ok {
+					if ia2, ok := ld.X.(*ssa.IndexAddr); ok {
+						if fr, ok := core.AsFieldLoad(ia2.X); ok && fr.Owner == "ValueSet" && fr.Field == "values" {
+							return core.Path(ia2.X), true
+						}
 					}
+				}
+				return "", false
+			}
+			if lp, ok := fromList(u.elem); ok {
+				fromValues, listPath = true, lp
+			} else if actuals := c.strategyActuals(u.elem); len(actuals) > 0 {
+				// the element is the parameter of a function literal that is handed to a private helper as a strategy:
+				// what the helper passes to it
+				fromValues = true
+				for _, a := range actuals {
+					lp, ok := fromList(a)
+					if !ok {
+						fromValues = false
+					}
+					listPath = lp
 				}
 			}
 			c.R.Add("PACK-P3", key, name, p.InstrPos(u.ia), fromValues,
@@ -432,6 +448,94 @@ func runPack(c *Ctx) {
 			}
 		}
 	}
+}
+
+// strategyActuals: v is parameter i of a function (literal) that is only ever handed, as a function value, to private
+// helpers which call it; returns the i-th arguments of those calls (nil if the function escapes in any other way).
+func (c *Ctx) strategyActuals(v ssa.Value) []ssa.Value {
+	p := c.P
+	prm, ok := v.(*ssa.Parameter)
+	if !ok {
+		return nil
+	}
+	L := prm.Parent()
+	idx := -1
+	for i, q := range L.Params {
+		if q == prm {
+			idx = i
+		}
+	}
+	if idx < 0 {
+		return nil
+	}
+	// the function value: the literal itself or its closure
+	var fv ssa.Value = L
+	if mc := p.ClosureSite(L); mc != nil {
+		fv = mc
+	}
+	refs := fv.Referrers()
+	if _, isFn := fv.(*ssa.Function); isFn || refs == nil {
+		// a capture-free literal has no referrer list: scan its parent
+		var out []ssa.Value
+		okAll := true
+		if L.Parent() == nil {
+			return nil
+		}
+		core.Instrs(L.Parent(), func(in ssa.Instruction) {
+			for _, op := range in.Operands(nil) {
+				if op == nil || *op != fv {
+					continue
+				}
+				as, ok := c.strategyUse(in, fv, idx)
+				if !ok {
+					okAll = false
+				}
+				out = append(out, as...)
+			}
+		})
+		if !okAll {
+			return nil
+		}
+		return out
+	}
+	var out []ssa.Value
+	for _, r := range *refs {
+		as, ok := c.strategyUse(r, fv, idx)
+		if !ok {
+			return nil
+		}
+		out = append(out, as...)
+	}
+	return out
+}
+
+// strategyUse: instruction `in` hands function value fv to a private helper; returns the idx-th arguments of the
+// helper's dynamic calls of that parameter.
+func (c *Ctx) strategyUse(in ssa.Instruction, fv ssa.Value, idx int) ([]ssa.Value, bool) {
+	p := c.P
+	ci, ok := in.(ssa.CallInstruction)
+	if !ok {
+		return nil, false
+	}
+	h := ci.Common().StaticCallee()
+	if !p.PrivateHelper(h) {
+		return nil, false
+	}
+	var out []ssa.Value
+	for j, a := range ci.Common().Args {
+		if a != fv || j >= len(h.Params) {
+			continue
+		}
+		hp := h.Params[j]
+		for _, r := range *hp.Referrers() {
+			dc, ok := r.(ssa.CallInstruction)
+			if !ok || dc.Common().Value != ssa.Value(hp) || idx >= len(dc.Common().Args) {
+				return nil, false // the helper does something else with the strategy
+			}
+			out = append(out, dc.Common().Args[idx])
+		}
+	}
+	return out, len(out) > 0
 }
 
 // ---------------------------------------------------------------------------
